@@ -174,7 +174,7 @@ pub fn run(ctx: &Ctx, rep: &mut Report) {
         }
         check(&e, &format!("alone:{}", i), rep);
     });
-    let n = ctx.pick(5000, 2_000_000);
+    let n = ctx.pick(5000, 8_000_000);
     par_cases(ctx, "tree", n, rep, |i, rep| {
         let mut r = Rng::for_case(ctx.seed, "tree", i);
         let leaves = 1 + r.usize(7);
